@@ -4,7 +4,7 @@
 From Coq Require Import Permutation.
 From Base Require Import Prelude.
 From C07 Require Import Event Model Spec ProofsSort ProofsSets ProofsAuth ProofsGraph ProofsPower
-  ProofsMainline ProofsClosure ProofsResolve.
+  ProofsMainline ProofsClosure ProofsResolve Witness.
 From Coq Require Import ZifyBool ZifyNat ZifyN.
 
 (** * Permuted inputs *)
@@ -363,3 +363,37 @@ Section Identical.
       rewrite Hget, (ecount_entries sets k v Hm) in E. rewrite <- E. apply Hfull. lia.
   Qed.
 End Identical.
+
+(** * Statements as they appear in Properties.v *)
+Lemma full_conflicted_order_independent (st : store) (o o' : oracles) sets sets' chains chains' :
+  perm_oracles o -> perm_oracles o' -> maps sets -> (forall c, In c chains -> NoDup c) ->
+  perm2 sets sets' -> perm2 chains chains' ->
+  forall x, In x (all_conflicted st o chains (snd (separate o sets)))
+            <-> In x (all_conflicted st o' chains' (snd (separate o' sets'))).
+Proof.
+  intros Ho Ho' Hm Hc Hps Hpc x.
+  assert (Hm' : maps sets') by (eapply maps_perm2; eauto).
+  assert (Hc' : forall ch, In ch chains' -> NoDup ch).
+  { intros ch Hin. destruct (perm2_In _ _ Hpc ch Hin) as (ch0 & H0 & Hp). eapply Permutation_NoDup; eauto. }
+  rewrite (full_conflicted_eq_spec st o sets chains Ho Hm Hc x).
+  rewrite (full_conflicted_eq_spec st o' sets' chains' Ho' Hm' Hc' x).
+  pose proof (full_conflicted_perm2 st sets sets' chains chains' Hm Hps Hpc) as Hp.
+  split; apply Permutation_in; [exact Hp|now apply Permutation_sym].
+Qed.
+
+Lemma rev_gkeys_perm : perm_oracles rev_gkeys.
+Proof.
+  intros s A l. unfold rev_gkeys. destruct (Nat.eqb s s_gkeys); [apply Permutation_sym, Permutation_rev|apply Permutation_refl].
+Qed.
+
+Lemma sort_order_dependent_without_H :
+  perm_oracles id_oracles /\ perm_oracles rev_gkeys
+  /\ sorted_power id_oracles = Ok (ids ["$b"; "$a"]%string)
+  /\ sorted_power rev_gkeys = Ok (ids ["$a"; "$b"]%string)
+  /\ match resolve st_h allow_all no_types id_oracles sets_h chains_h,
+           resolve st_h allow_all no_types rev_gkeys sets_h chains_h with
+     | Ok m1, Ok m2 => klookup k_jr m1 = Some (bytes_of_string "$a") /\ klookup k_jr m2 = Some (bytes_of_string "$b")
+     | _, _ => False end.
+Proof.
+  split; [apply id_oracles_perm|]. split; [apply rev_gkeys_perm|]. exact sort_order_dependent_without_H_compute.
+Qed.
